@@ -92,3 +92,10 @@ Example C17_ex_deny_premises :
   route cfg_both (rq "GET" "/bd/api/v1/dags" "Token tok123") = Api /\ no_auth cfg_both = false /\
   carries_basic cfg_both (L "Bearer dG9rMTIz") = false /\ carries_token cfg_both (L "Bearer dG9rMTIz") = false.
 Proof. exact ex_deny_premises. Qed.
+(* a configured password with colons: only the whole password passes (the pair is cut at the first colon) *)
+Example C17_ex_colon_password :
+  chain cfg_colon {| method := L "GET"; path := L "/api/v1/dags"; rawpath := []; hdr := std_basic (L "admin") (L "a:b:c") |} = Api /\
+  chain cfg_colon {| method := L "GET"; path := L "/api/v1/dags"; rawpath := []; hdr := std_basic (L "admin") (L "a:b:c:junk") |} = Unauth /\
+  chain cfg_colon {| method := L "GET"; path := L "/api/v1/dags"; rawpath := []; hdr := std_basic (L "admin") (L "a") |} = Unauth /\
+  parse_basic (std_basic (L "admin") (L "a:b:c")) = Some (L "admin", L "a:b:c").
+Proof. exact ex_colon_password. Qed.
